@@ -951,6 +951,11 @@ def check_naive(ctx: Ctx, only: Optional[str] = "NaiveThresholdMatching"):
             v, w = implication(form, prem, lambda a: not a["cp"], atoms.feasible)
             if stale and v is False:
                 v = None
+            by_run = lambda v_, w_: v_ is not True and gv is True and bool(form.opaque) and (w_ is None or (isinstance(w_, dict) and any(str(k).startswith("?") for k in w_)))
+            if by_run(v, w):
+                # the guard goes through a condition this rule cannot read (a helper of the label map ...): the
+                # matcher's run (R03.4g) found the assignment greedy on every scenario - decided there
+                v, w = True, None
             ctx.decide("R03.4b", f, c, construct, "path condition implies: prediction label not yet assigned (at most one reference per prediction; add_labelmap_entry cannot raise)", v, {"row": w, "path_condition": pc_txt} if w else {"path_condition": pc_txt})
             # (c) one-to-one unless many-to-one is allowed
             if m2o:
@@ -961,6 +966,8 @@ def check_naive(ctx: Ctx, only: Optional[str] = "NaiveThresholdMatching"):
                 v, w = implication(form, prem_c, lambda a: not a["cr"], atoms.feasible)
                 if stale and v is False:
                     v = None
+                if by_run(v, w):
+                    v, w = True, None
                 ctx.decide("R03.4c", f, c, construct, "path condition and not allow_many_to_one implies: reference label not yet assigned (one-to-one)", v, {"row": w, "path_condition": pc_txt} if w else {"path_condition": pc_txt})
                 # (d) maximality: an eligible pair with both partners free is assigned
                 #     i.e. (not cp and not cr and beats) => PC   -- PC must not be stronger than needed
@@ -972,7 +979,7 @@ def check_naive(ctx: Ctx, only: Optional[str] = "NaiveThresholdMatching"):
                         # a counter-row that needs facts this rule does not know to be compatible (lengths of lists,
                         # counters of an early exit) may be infeasible: where the matcher's run (R03.4g) found the
                         # assignment maximal on every scenario, such a row is not reported
-                        return v_ is False and gv is True and isinstance(w_, dict) and any(k not in core for k in w_)
+                        return v_ is not True and gv is True and (not isinstance(w_, dict) or any(k not in core for k in w_))
 
                     v, w = implication(form, [lambda a: not a["cp"], lambda a: not a["cr"], beats], pcf, atoms.feasible)
                     if not beyond_core(v, w):
